@@ -489,7 +489,7 @@ fn collide_case() -> BoxedStrategy<CliCase> {
 pub fn def() -> PropertyDef {
 	PropertyDef {
 		id: "C18",
-		rule: "The real rustls-cert-gen binaries (ring and aws-lc-rs builds) are run with generated option sets: each key algorithm the build offers, 0..5 --san values (host names, IPv4/IPv6 literals, look-alikes such as 1.2.3 or 256.1.1.1), common/country/organisation strings incl. non-ASCII, both purpose flags, base names, output directories (existing, missing, nested, with spaces / non-ASCII; in a quarter of the valid cases already holding longer files under the four target names, which must be replaced). Valid: exit 0, exactly the four files, strict PEM, each key matches its certificate, requested key algorithm, CA is a CA with keyCertSign+cRLSign, SANs / CN / EKUs exactly as given, OpenSSL and webpki accept leaf -> CA. Invalid (non-printable country, non-ASCII SAN, --rsa / --ecdsa-p521 on ring): non-zero exit, no panic, no file written. Non-trivial = at least two non-default options.",
+		rule: "The real rustls-cert-gen binaries (ring and aws-lc-rs builds) are run with generated option sets: each key algorithm the build offers, 0..5 --san values (host names, IPv4/IPv6 literals, look-alikes such as 1.2.3 or 256.1.1.1), common/country/organisation strings incl. non-ASCII and lengths around 64/128/256 up to 1000 characters, both purpose flags, base names, output directories (existing, missing, nested, with spaces / non-ASCII; in a quarter of the valid cases already holding longer files under the four target names, which must be replaced). Valid: exit 0, exactly the four files, strict PEM, each key matches its certificate, requested key algorithm, CA is a CA with keyCertSign+cRLSign, SANs / CN / EKUs exactly as given, OpenSSL and webpki accept leaf -> CA. Invalid (non-printable country, non-ASCII SAN, --rsa / --ecdsa-p521 on ring): non-zero exit, no panic, no file written. Non-trivial = at least two non-default options.",
 		assumptions: vec!["OpenSSL and webpki path validation; verification time 2023-11-14", "option values never start with '-' (they would be parsed as flags)"],
 		subs: vec![
 			prop_sub("options", 1_600, 12_000, cli_case, check_cli),
